@@ -721,7 +721,7 @@ def c16_run_cases(run, cases, label):
         run.count(f'{label}:{i_ans.split(":")[0]}' + (':' + i_ans.split(':')[1] if i_ans.startswith('err') else ''))
         run.cov['traces_validated_against_impl'] += 1
         # oracle: documented rule on the field this case is about
-        if c.expect and c.expect != 'reject' and i_ans.startswith('ok:'):
+        if c.expect and c.expect != 'reject' and c.expect[0] != 'paths' and i_ans.startswith('ok:'):
             si, fi, want = c.expect
             syncs = i_ans[i_ans.index('[') + 1:].split(';')
             got = syncs[si].rstrip(')]').split(',')[-5:][fi] if si < len(syncs) else None
@@ -729,6 +729,16 @@ def c16_run_cases(run, cases, label):
             if got != wantw:
                 run.violation(dict(kind='oracle-failed-on-implementation', oracle='documented precedence', layer='L1', argv=c.argv('SPEC'),
                                    spec_file=c.spec_text, field=C16_FIELDS[fi][0], want=wantw, got=got, impl=i_ans, model=m_ans))
+                continue
+        if isinstance(c.expect, tuple) and c.expect and c.expect[0] == 'paths':
+            # the strings a spec file states for src / dest are taken as they are (as SRC DEST on the command line would be)
+            want_s, want_d = c.expect[1], c.expect[2]
+            import re as _re5
+            m5 = _re5.search(r'Sync\(x([0-9a-f]*),x([0-9a-f]*),', i_ans)
+            got_s, got_d = (bytes.fromhex(m5.group(1)).decode(errors='replace'), bytes.fromhex(m5.group(2)).decode(errors='replace')) if m5 else (None, None)
+            if not i_ans.startswith('ok:') or (got_s, got_d) != (want_s, want_d):
+                run.violation(dict(kind='oracle-failed-on-implementation', oracle='the src / dest strings of a spec file are used exactly as written (what SRC DEST on the command line would give)', layer='L1',
+                                   spec_file=c.spec_text, want=[want_s, want_d], got=[got_s, got_d], impl=i_ans[:500], model=m_ans[:300]))
                 continue
         if c.expect == 'reject' and not i_ans.startswith('err'):
             run.violation(dict(kind='oracle-failed-on-implementation', oracle='malformed spec file is rejected', layer='L1',
@@ -860,6 +870,9 @@ def check_C16(run):
             else:
                 j = min(len(t), i + rng.randint(1, 8)); t = t[:i] + t[i:j] + t[i:]
         c = C16Case(); c.spec_text = t; cases.append(c)
+    import json as _json5
+    for sv, dv in [(' in', 'out'), ('in', 'out '), ('in ', ' out'), ('\tin', 'out'), ('in', 'out\n'), ('in', ' '), ('a  b', 'c\u00a0'), ('./in/', 'out/ '), (' h:in', 'out'), ('in', '\u3000out')]:
+        c = C16Case(); c.spec_text = f'syncs:\n  - src: {_json5.dumps(sv)}\n    dest: {_json5.dumps(dv)}\n'; c.expect = ('paths', sv, dv); cases.append(c)
     c16_run_cases(run, cases, 'spec-text')
     # spec files that are not text at all: bytes that are not valid UTF-8 (a lone 0xE9, a truncated sequence, an overlong form, UTF-16) in a path,
     # a key, a comment: rejected before anything is touched (the documented behaviour: exit status 18); never silently re-spelled
@@ -2709,6 +2722,22 @@ def check_C09(run):
                 if len(run.violations) >= 2:
                     break
             shutil.rmtree(base, ignore_errors=True)
+        # ---- a folder that cannot be listed (as root: its path is longer than PATH_MAX), on the source, on the destination, as the root's only
+        # content: the walk reports an error and the run ends with a status, it does not wait for a listing that never ends
+        for k, where in enumerate(['src', 'dst']):
+            base, src, dst = mk(f'long{k}', 2000, 2)
+            os.makedirs(dst, exist_ok=True)
+            if not l4.make_overlong_folder(os.path.join(src if where == 'src' else dst, 'deep')):
+                run.count('unlistable-folder:host-cannot-build-it'); shutil.rmtree(base, ignore_errors=True); continue
+            r = l4.run_cli([src + '/', dst + '/', '--dest-entry-needs-deleting', 'delete'], env=sb.env(), timeout=WATCHDOG)
+            run.case(('unlistable-folder', where), True, sample=dict(layer='L4', fault='a folder whose path exceeds PATH_MAX', side=where, rc=r['rc'], wall_s=round(r['wall'], 2)))
+            run.count(f'unlistable-folder:{where}:rc={r["rc"]}'); run.cov['traces_validated_against_impl'] += 1
+            if r['timeout'] or r['rc'] is None:
+                run.violation(dict(kind='oracle-failed-on-implementation', oracle='a folder that cannot be listed ends the run within bounded time', layer='L4', side=where, rc=r['rc'], timed_out=r['timeout'],
+                                   wall_s=round(r['wall'], 1), stderr=r['err'][-400:], how='a chain of 24 folders with 200-character names below the root (built with relative mkdir / chdir): its path is longer than PATH_MAX'))
+                subprocess.run(['pkill', '-f', C.CLI_BIN + ' ' + src], capture_output=True)
+                break
+            shutil.rmtree(base, ignore_errors=True)
         # ---- the announced data port cannot be reached (the handshake is through, the doer alive and waiting): the boss gives up with a status,
         # and the doer it launched does not outlive it
         for k, place in enumerate(['remote-dest', 'remote-src', 'both']):
@@ -2875,7 +2904,9 @@ def check_C18(run):
                 if rng.random() < 0.15:
                     rng.shuffle(args)
             elif mode < 0.85:
-                good = f'syncs:\n  - src: {src}/\n    dest: {dst}/\n    filters: [ "+.*" ]\n    dest_file_newer_behaviour: overwrite\n  - src: {src}\n    dest: {dst}2\n'
+                # (paths relative to the run's working directory, the scratch folder of this case: a mutation that lands inside a path must
+                # not be able to name a place outside the scratch folder - absolute paths once left folders like '/t*amp' behind)
+                good = 'syncs:\n  - src: src\n    dest: dst\n    filters: [ "+.*" ]\n    dest_file_newer_behaviour: overwrite\n  - src: src\n    dest: dst2\n'    # (and no '/' anywhere: no mutation can make an absolute path, least of all 'dest: /')
                 t = good
                 toks = ['syncs', 'src', ':', '-', '[', ']', '"', '\n', '  ', 'filters', '~', '&a', '*a', '---\n', '{', '}', '\xe9', 'deploy_behaviour: ok\n', '!!binary ', '? ', '\t']
                 for _ in range(rng.randint(0, 3)):
